@@ -12,7 +12,7 @@ From Coq Require Import List NArith Bool.
 From V.gen Require Consts.
 From V.C03 Require Import Model Msg Proofs UviProofs LsProofs WebRtc WebRtcProofs Fallback.
 From V.C03 Require Import MsgRef MsgProofs MsgInv Chan Dir SimD SimL SimSys BytesThm LazyThm.
-From V.C03 Require Import Work Work2 Live Timed TimedProofs NegOps LazyBytes Compose.
+From V.C03 Require Import Work Work2 Live Timed TimedProofs Survivor NegOps LazyBytes Compose Sub SubProofs.
 Import ListNotations.
 Open Scope N_scope.
 
@@ -397,13 +397,20 @@ Print Assumptions C03_fallback_oracle_accepts_model.
 
 (* the peer of a dropped stream: one poll of ANY task on an inbound pipe that the peer has closed
    does what the same poll does on the pipe as it was, or the task has seen the end of the stream
-   and is finished - keeping the result it had, or with a failure; it never invents a success *)
+   and is finished: with a failure, or - it was reading application data - delivering what it had
+   read with a clean EOF, or - it was still expecting an optimistic confirmation - with a read
+   error; in the last two cases it keeps the result it had. It never invents a success. *)
 Theorem C03_timeout_peer_poll :
   forall fuel t pin pout t1 pi1 po1,
   t_poll fuel t pin pout = (t1, pi1, po1) ->
   exists t1' pi1' po1', t_poll fuel t (pipe_close pin) pout = (t1', pi1', po1') /\
     ((t1' = t1 /\ pi1' = pipe_close pi1 /\ po1' = po1) \/
-     (t_ph t1' = TDone /\ (t_res t1' = t_res t1 \/ fst (t_res t1') <> 0))).
+     (t_ph t1' = TDone /\
+      (fst (t_res t1') <> 0 \/
+       (t_res t1' = t_res t1 /\
+        exists acc, t_ph t1 = TRead NCompleted acc /\ t_got t1' = acc /\ t_end t1' = 0) \/
+       (t_res t1' = t_res t1 /\ t_end t1' <> 0 /\
+        exists g acc, t_ph t1 = TRead g acc /\ g <> NCompleted)))).
 Proof. exact t_poll_closed. Qed.
 Print Assumptions C03_timeout_peer_poll.
 
@@ -434,6 +441,19 @@ Theorem C03_timeout_both_ok_plain :
   exists who, sa = polls who (sys_init c).
 Proof. exact timed_both_ok_plain. Qed.
 Print Assumptions C03_timeout_both_ok_plain.
+
+(* the inherent one-sided case (the listener has accepted, the dialer's timer fires before it reads
+   the confirmation; C03_timeout_example): the listener's stream then delivers NOTHING - no
+   negotiation byte ever reaches the application as data - and ends with a clean EOF. For all
+   timeouts and interleavings. *)
+Theorem C03_timeout_survivor_clean :
+  forall c, wf_case c -> forall to_d to_l es,
+  let sa := ts_sys (trun to_d to_l es (tinit c)) in
+  t_done (s_d sa) = true -> t_done (s_l sa) = true ->
+  fst (t_res (s_d sa)) <> 0 -> fst (t_res (s_l sa)) = 0 ->
+  t_got (s_l sa) = [] /\ t_end (s_l sa) = 0.
+Proof. exact timed_survivor_clean. Qed.
+Print Assumptions C03_timeout_survivor_clean.
 
 (* TERMINATION under timeouts: any timeouts, every fair timed schedule (K blocks each polling both
    sides, ticks anywhere): both tasks finish; a fired timer strictly lowers the potential and the
@@ -578,6 +598,15 @@ Theorem C03_substream_fallback_listener :
       (wf_cfg cfgL -> report cfgL n = spec cfgL n).
 Proof. exact substream_fallback_listener. Qed.
 Print Assumptions C03_substream_fallback_listener.
+
+(* the end-to-end mode (two real nodes, request-response protocols with fallback names; Sub.v): its
+   trace oracle - "the name in use is the most preferred of main :: fallbacks that the listener
+   offers, delivered to the protocol and with the fallback that Fallback.spec names" - accepts the
+   model's trace on EVERY input *)
+Theorem C03_sub_oracle_accepts_model :
+  forall case : list N, ok_sub case (run_sub case) = true.
+Proof. exact sub_oracle_accepts_model. Qed.
+Print Assumptions C03_sub_oracle_accepts_model.
 
 (* ---- non-vacuity of layer 7: the dialer's timer (1 tick) fires while the listener's confirmation
    is in flight (the carrier injects one Pending): the listener has accepted "/a" (index 0), the
